@@ -56,6 +56,7 @@ class EntryMonitor:
         b = self.b
         self.taken.append((b.tick, kind))
         self.last_post = (b.tick, post)          # the state right after the entry routine: nothing else may happen in the same step
+        self.last_post_serial = getattr(b, 'step_serial', None) if getattr(b, 'in_step', False) else None
         if (s['cpsr'] >> 24) & 1 and not (s['cpsr'] >> 5) & 1:
             # entry from Jazelle state (only reachable in configurations that have the extension): its return-address offsets are
             # not modelled.  ThumbEE state (J=1, T=1) uses the Thumb offsets and is compared
@@ -74,6 +75,21 @@ class EntryMonitor:
             else:
                 b.count('probe.entry-mismatch')
             break
+
+    def on_tick(self, b, rec):
+        """an exception entry is the LAST thing its step does: the state at the end of the step is the state the entry routine left (an entry
+        taken by a direct call from inside execute() - the Hyp traps of WFI/WFE/coprocessor accesses - returns into code that may still write)"""
+        lp = getattr(self, 'last_post', None)
+        if not self.report or lp is None or lp[0] != rec['tick'] or rec['nie'] or rec['exc'] or rec.get('post') is None or rec.get('core', self.ci) != self.ci:
+            return
+        if getattr(self, 'last_post_serial', None) is None or self.last_post_serial != rec.get('serial'):
+            return                               # the entry was not taken inside this step (API-level injection between steps)
+        if rec['post'] != lp[1]:
+            kind = self.taken[-1][1] if self.taken else '?'
+            regs = [M.RNAMES[i] for i, (x, y) in enumerate(zip(rec['post'][0], lp[1][0])) if x != y]
+            flds = [i for i, (x, y) in enumerate(zip(rec['post'], lp[1])) if x != y]
+            b.violate(self.oracle, kind, 'state_changed_after_entry', 'tick %d: after the %s entry the step went on and changed %s (fields %s: cpsr %#x -> %#x); pre cpsr=%#x pc=%#x' % (
+                rec['tick'], kind, regs, flds, lp[1][1], rec['post'][1], rec['pre'][1], rec['pre_pc']))
 
     # reset is delivered as a board event
     def on_event(self, b, ev, core, pre, post):
